@@ -44,13 +44,22 @@ CONFIGS = {
                   args=["--target", "aarch64-unknown-none", "-Zbuild-std=core,alloc", "--no-default-features"],
                   env={"CC": "clang", "CFLAGS": "--target=aarch64-linux-gnu -isystem %s -isystem /usr/include/x86_64-linux-gnu"
                        % os.path.join(VERIF, "engines/cfront/stubs/aarch64")}),
+    # 32-bit usize, no_std: the portable flavour on a 32-bit bare target, and the 32-bit x86 flavour (Rust intrinsics for
+    # SSE2/SSE4.1/AVX2, C intrinsics for AVX-512 compiled by build.rs with clang for i686 against the stub headers)
+    "portable32": dict(dir=".", crate="blake3", ptr=32,
+                       args=["--target", "riscv32imac-unknown-none-elf", "-Zbuild-std=core,alloc", "--no-default-features"]),
+    "x86-32": dict(dir=".", crate="blake3", ptr=32,
+                   args=["--target", "i686-unknown-linux-gnu", "-Zbuild-std=core,alloc", "--no-default-features"],
+                   env={"CC": "clang", "CFLAGS": "--target=i686-linux-gnu -isystem %s -isystem /usr/include/x86_64-linux-gnu"
+                        % os.path.join(VERIF, "engines/cfront/stubs/i686")}),
     "refimpl": dict(dir="reference_impl", crate="reference_impl", args=[]),
     "testvec": dict(dir="test_vectors", crate="test_vectors", args=["--lib"]),
     "b3sum": dict(dir="b3sum", crate="b3sum", args=[], scratch=True),
 }
 QUICK = ["asm-full", "pure-full", "portable1"]
 ALL_BLAKE3 = ["asm-full", "asm-default", "asm-nostd", "pure-full", "intr-full", "no512", "no2", "no41",
-              "no2x", "portable1", "neon1"]
+              "no2x", "portable1", "neon1", "portable32", "x86-32"]
+NO_STD = ("portable1", "asm-nostd", "neon1", "portable32", "x86-32")
 
 SKIP_DIRS = {".git", "target", "media", "benches", "tools", ".github"}
 
